@@ -496,6 +496,10 @@ package leader
 //@   on call onPromote as c assert C19.derived_from_election_ctx: origin(c.arg0, "ctx:derived") && origin(ctxof(c.arg0), "ctx:derived") && origin(ctxof(ctxof(c.arg0)), "field:kvElection.ctx")
 //@   on call ctxcancel assert C19.not_cancelled_early: calls(onPromote) == 1
 //@   on call onPromote assert C08.promote_once_per_activation: calls(onPromote) == 1
+//@   ghost tcFn Int = 0
+//@   on store kvElection.termCancel as s set tcFn = s.value
+//@   on call heartbeatLoop as c assert C07+C12+C03.loops_bound_to_the_term: tcFn != nil && CancelTarget(tcFn) == c.ctx
+//@   on call validationLoop as c assert C07+C04.loops_bound_to_the_term: tcFn != nil && CancelTarget(tcFn) == c.ctx
 //@   ghost claimed Bool = false
 //@   ghost stateL Int = 0
 //@   ghost ctxNilL Bool = false
@@ -803,14 +807,15 @@ package leader
 //@   ghost demote_cause Bool = false
 //@   ghost cleared Bool = false
 //@   ghost demoteSet Bool = false
-//@   ghost sameRun Bool = false
-//@   ghost run Int = ctx
-//@   on load kvElection.ctx as l set sameRun = l.value == run
-//@   on call becomeFollower set demote_cause = cancelled(run) && sameRun
+//@   ghost runDead Bool = false
+//@   ghost runSeen Int = 0
+//@   on load kvElection.ctx as l set runSeen = l.value
+//@   on ret Context.Err as r when r.ctx == runSeen set runDead = r.result != nil
+//@   on call becomeFollower set demote_cause = runDead
 //@   on ret becomeFollower as r set cleared = r.result
 //@   on load kvElection.onDemote as l set demoteSet = l.value != nil
-//@   ensures C03+C02.cancelled_run_ends_its_term: sameRun ==> calls(becomeFollower) == 1
-//@   ensures C07.later_run_left_alone: !sameRun ==> calls(becomeFollower) == 0 && calls(onDemote) == 0
+//@   ensures C03+C02.cancelled_run_ends_its_term: runDead ==> calls(becomeFollower) == 1
+//@   ensures C07.live_run_left_alone: !runDead ==> calls(becomeFollower) == 0 && calls(onDemote) == 0
 //@   ensures C08.demote_iff_claim_cleared: calls(onDemote) == ((cleared && demoteSet) ? 1 : 0)
 
 //@ func (e *kvElection) handleHealthCheckFailure()
